@@ -446,3 +446,5 @@ def run(ctx):
         clause11_fetcher_table(ctx, P)
         from .c02 import clause5b_number_rendering     # 'each with its most recently accepted value': values are rendered exactly
         clause5b_number_rendering(ctx, P)
+        from .c11 import clause1_fanout                # no subscriber is passed over when an event is fanned out
+        clause1_fanout(ctx, P, cg)
